@@ -329,4 +329,159 @@ theorem mul_tf_val {y : TwoFloat} {q : F64} (hy : y.Valid) (hq : q.is_finite = t
   rw [hV.1]
   exact E1
 
+/-! ## 5. `TwoFloat ± TwoFloat` (AccurateDWPlusDW): value with a crude error bound -/
+
+theorem abs_le_add_abs_sub (a b : Int) : |a| ≤ |b| + |a - b| := by
+  have := abs_add_le b (a - b)
+  rwa [add_sub_cancel] at this
+
+/-- error analysis of the tail of AccurateDWPlusDW on scaled integers -/
+theorem addcore_err_int {xh xl yh yl : Int} (hx : 2 ^ 53 * |xl| ≤ |xh|) (hy : 2 ^ 53 * |yl| ≤ |yh|)
+    (sh sl th tl c vh vl w : Int)
+    (e1 : sh = rnI (xh + yh)) (e2 : sl = xh + yh - sh) (e3 : th = rnI (xl + yl)) (e4 : tl = xl + yl - th)
+    (e5 : c = rnI (sl + th)) (e6 : vh = rnI (sh + c)) (e7 : vl = sh + c - vh) (e8 : w = rnI (tl + vl)) :
+    2 ^ 103 * |vh + w - (xh + yh + (xl + yl))| ≤ |xh| + |yh| ∧
+    |sl + th| ≤ |xh| + |yh| ∧ |sh + c| ≤ 4 * (|xh| + |yh|) ∧ |tl + vl| ≤ |xh| + |yh| ∧
+    |vh + w| ≤ 4 * (|xh| + |yh|) := by
+  have r1 := rel_err_rnI (xh + yh)
+  have r2 := rel_err_rnI (xl + yl)
+  have r3 := rel_err_rnI (sl + th)
+  have r4 := rel_err_rnI (sh + c)
+  have r5 := rel_err_rnI (tl + vl)
+  rw [← e1] at r1
+  rw [← e3] at r2
+  rw [← e5] at r3
+  rw [← e6] at r4
+  rw [← e8] at r5
+  have t1 := abs_add_le xh yh
+  have t2 := abs_add_le xl yl
+  have esl : |sl| = |sh - (xh + yh)| := by rw [e2, ← abs_neg]; congr 1; ring
+  have etl : |tl| = |th - (xl + yl)| := by rw [e4, ← abs_neg]; congr 1; ring
+  have evl : |vl| = |vh - (sh + c)| := by rw [e7, ← abs_neg]; congr 1; ring
+  have t3 := abs_add_le sl th
+  have t4 := abs_le_add_abs_sub th (xl + yl)
+  have t5 := abs_le_add_abs_sub sh (xh + yh)
+  have t6 := abs_le_add_abs_sub c (sl + th)
+  have t7 := abs_add_le sh c
+  have t8 := abs_add_le tl vl
+  have t9 := abs_le_add_abs_sub vh (sh + c)
+  have t10 := abs_le_add_abs_sub w (tl + vl)
+  have t11 := abs_add_le vh w
+  have tg : |vh + w - (xh + yh + (xl + yl))| ≤ |c - (sl + th)| + |w - (tl + vl)| := by
+    have e : vh + w - (xh + yh + (xl + yl)) = (c - (sl + th)) + (w - (tl + vl)) := by
+      rw [e7, e4, e2]; ring
+    rw [e]; exact abs_add_le _ _
+  have n1 := abs_nonneg xh
+  have n2 := abs_nonneg yh
+  have n3 := abs_nonneg xl
+  have n4 := abs_nonneg yl
+  rw [← esl] at r1
+  rw [← etl] at r2
+  rw [← evl] at r4
+  generalize |vh + w - (xh + yh + (xl + yl))| = G at *
+  generalize |c - (sl + th)| = E3 at *
+  generalize |w - (tl + vl)| = E5 at *
+  generalize |sh - (xh + yh)| = E1 at *
+  generalize |th - (xl + yl)| = E2 at *
+  generalize |vh - (sh + c)| = E4 at *
+  generalize |sl + th| = A1 at *
+  generalize |sh + c| = A2 at *
+  generalize |tl + vl| = A3 at *
+  generalize |vh + w| = A4 at *
+  generalize |xh + yh| = A5 at *
+  generalize |xl + yl| = A6 at *
+  generalize |sl| = B1 at *
+  generalize |tl| = B2 at *
+  generalize |vl| = B3 at *
+  generalize |sh| = B4 at *
+  generalize |th| = B5 at *
+  generalize |c| = B6 at *
+  generalize |vh| = B7 at *
+  generalize |w| = B8 at *
+  generalize |xh| = X at *
+  generalize |yh| = Y at *
+  generalize |xl| = XL at *
+  generalize |yl| = YL at *
+  have b1 := abs_nonneg (0 : Int)
+  refine ⟨?_, ?_, ?_, ?_, ?_⟩ <;> omega
+
+/-- `2^53 |l| ≤ |x|` (in `ℤ`) for a low word below half an ulp of `x` -/
+theorem two_pow_mul_abs_le_of_half_ulp {x l : Int} (hl : 2 * |l| ≤ 2 ^ (Nat.log2 x.natAbs - 52)) :
+    2 ^ 53 * |l| ≤ |x| := by
+  have h := two_pow_mul_le_of_half_ulp hl
+  rw [← Int.natCast_natAbs, ← Int.natCast_natAbs]; exact_mod_cast h
+
+/-- **the tail of AccurateDWPlusDW, value level**: from the two error-free 2Sums `s`, `t` (given by their word values)
+to a valid result whose value differs from the exact sum by at most `2^-103 (|xh| + |yh|)` -/
+theorem addCore_val {s t : TwoFloat} {xh xl yh yl : Int} (hws : s.WF) (hxh : RepI xh) (hyh : RepI yh)
+    (hx : 2 * |xl| ≤ 2 ^ (Nat.log2 xh.natAbs - 52)) (hy : 2 * |yl| ≤ 2 ^ (Nat.log2 yh.natAbs - 52))
+    (vsh : IsVal s.hi (rnI (xh + yh))) (vsl : IsVal s.lo (xh + yh - rnI (xh + yh)))
+    (vth : IsVal t.hi (rnI (xl + yl))) (vtl : IsVal t.lo (xl + yl - rnI (xl + yl)))
+    (hb : 4 * (|xh| + |yh|) ≤ (maxFin : Int)) :
+    (addCore s t).Valid ∧ 2 ^ 103 * |(addCore s t).V - (xh + yh + (xl + yl))| ≤ |xh| + |yh| := by
+  unfold addCore
+  obtain ⟨G, A1, A2, A3, A4⟩ := addcore_err_int (two_pow_mul_abs_le_of_half_ulp hx)
+    (two_pow_mul_abs_le_of_half_ulp hy) _ _ _ _ _ _ _ _ rfl rfl rfl rfl rfl rfl rfl rfl
+  have n1 := abs_nonneg xh
+  have n2 := abs_nonneg yh
+  obtain ⟨P1, P2⟩ := dwplusdw_pre hxh hyh hx hy
+  have vc := vsl.add vth (by omega)
+  have hov : rn53 (s.hi.toInt + (F64.add s.lo t.hi).toInt).natAbs ≤ maxFin := by
+    rw [vsh.2, vc.2]; exact rn53_natAbs_le_maxFin (by omega)
+  have Vw : IsVal (arithmetic.fast_two_sum s.hi (F64.add s.lo t.hi)).hi
+        (rnI (s.hi.toInt + (F64.add s.lo t.hi).toInt)) ∧
+      IsVal (arithmetic.fast_two_sum s.hi (F64.add s.lo t.hi)).lo
+        (s.hi.toInt + (F64.add s.lo t.hi).toInt - rnI (s.hi.toInt + (F64.add s.lo t.hi).toInt)) := by
+    rcases P1 with p | p
+    · exact fast_two_sum_words vsh.1 vc.1 hws.1 (add_WF _ _) (by rw [vsh.2, vc.2]; exact p) hov
+    · exact fast_two_sum_words_of_dvd vsh.1 vc.1 hws.1 (add_WF _ _) (by rw [vsh.2, vc.2]; exact p) hov
+  rw [vsh.2, vc.2] at Vw
+  have vw := vtl.add Vw.2 (by omega)
+  have hov2 : rn53 ((arithmetic.fast_two_sum s.hi (F64.add s.lo t.hi)).hi.toInt +
+      (F64.add t.lo (arithmetic.fast_two_sum s.hi (F64.add s.lo t.hi)).lo).toInt).natAbs ≤ maxFin := by
+    rw [Vw.1.2, vw.2]; exact rn53_natAbs_le_maxFin (by omega)
+  have R : (arithmetic.fast_two_sum (arithmetic.fast_two_sum s.hi (F64.add s.lo t.hi)).hi
+        (F64.add t.lo (arithmetic.fast_two_sum s.hi (F64.add s.lo t.hi)).lo)).V
+      = (arithmetic.fast_two_sum s.hi (F64.add s.lo t.hi)).hi.toInt +
+        (F64.add t.lo (arithmetic.fast_two_sum s.hi (F64.add s.lo t.hi)).lo).toInt ∧
+      (arithmetic.fast_two_sum (arithmetic.fast_two_sum s.hi (F64.add s.lo t.hi)).hi
+        (F64.add t.lo (arithmetic.fast_two_sum s.hi (F64.add s.lo t.hi)).lo)).Valid := by
+    rcases P2 with p | p
+    · have := fast_two_sum_spec_of_dvd Vw.1.1 vw.1 (fast_two_sum_WF _ _).1 (add_WF _ _)
+        (by rw [Vw.1.2, p]; exact dvd_zero _) hov2
+      exact ⟨this.2.1, this.2.2.1⟩
+    · have := fast_two_sum_spec Vw.1.1 vw.1 (fast_two_sum_WF _ _).1 (add_WF _ _)
+        (by rw [vw.2, Vw.1.2]; exact abs_rnI_le (repI_rnI _) p) hov2
+      exact ⟨this.2.1, this.2.2.1⟩
+  refine ⟨R.2, ?_⟩
+  rw [R.1, Vw.1.2, vw.2]
+  exact G
+
+/-- **`TwoFloat - TwoFloat`, value level**: valid operands with high words below `2^1020`: the difference is a valid
+pair with `|value − (x − p)| ≤ 2^-103 (|x.hi| + |p.hi|)` -/
+theorem sub_tt_val {x p : TwoFloat} (hx : x.Valid) (hp : p.Valid) (hwx : x.WF) (hwp : p.WF)
+    (bx : |x.hi.toInt| ≤ 2 ^ 2094) (bp : |p.hi.toInt| ≤ 2 ^ 2094) :
+    (arithmetic.impl_Sub_rTwoFloat_for_rTwoFloat.sub x p).Valid ∧
+    2 ^ 103 * |(arithmetic.impl_Sub_rTwoFloat_for_rTwoFloat.sub x p).V - (x.V - p.V)|
+      ≤ |x.hi.toInt| + |p.hi.toInt| := by
+  rw [sub_tt_eq]
+  have hm : ((2 ^ 2097 : Nat) : Int) ≤ (maxFin : Int) := Int.ofNat_le.2 two_pow_2097_le_maxFin
+  push_cast at hm
+  have lx := hx.abs_lo_le
+  have lp := hp.abs_lo_le
+  obtain ⟨a1, a2⟩ := new_sub_words hx.1 hp.1 hwx.1 hwp.1 (by omega) (by omega)
+  obtain ⟨a3, a4⟩ := new_sub_words hx.2.1 hp.2.1 hwx.2 hwp.2 (by omega) (by omega)
+  have key := addCore_val (s := TwoFloat.new_sub x.hi p.hi) (t := TwoFloat.new_sub x.lo p.lo)
+    (xh := x.hi.toInt) (xl := x.lo.toInt) (yh := -p.hi.toInt) (yl := -p.lo.toInt)
+    (new_sub_WF _ _) hwx.1.repI hwp.1.repI.neg hx.two_mul_abs_lo_le
+    (by rw [abs_neg, Int.natAbs_neg]; exact hp.two_mul_abs_lo_le)
+    (by rw [← Int.sub_eq_add_neg]; exact a1) (by rw [← Int.sub_eq_add_neg]; exact a2)
+    (by rw [← Int.sub_eq_add_neg]; exact a3) (by rw [← Int.sub_eq_add_neg]; exact a4)
+    (by rw [abs_neg]; omega)
+  rw [abs_neg] at key
+  refine ⟨key.1, ?_⟩
+  have e : x.V - p.V = x.hi.toInt + -p.hi.toInt + (x.lo.toInt + -p.lo.toInt) := by
+    unfold TwoFloat.V; ring
+  rw [e]; exact key.2
+
 end F64
